@@ -65,3 +65,4 @@ package fuzz
 //@   requires recv: v != nil
 //@   ensures ok: true
 //@   assigns everything
+//@   opt inline=1
